@@ -102,11 +102,31 @@ def run(project: Project, rep, tier: str):
     sorts = [n for n in ast.walk(f) if isinstance(n, ast.Call) and
              (project.resolve(fi.module, n.func, locs) == "builtins.sorted" or
               (isinstance(n.func, ast.Attribute) and n.func.attr == "sort"))]
+    # methods of the same class that the sweep calls (an input-preparation step moved out of compute_landscape) are read too
+    self_calls = []
+    for n in ast.walk(f):
+        if isinstance(n, ast.Call) and isinstance(n.func, ast.Attribute) and isinstance(n.func.value, ast.Name) \
+                and n.func.value.id == "self" and cls.lookup(n.func.attr, project) is not None and n.func.attr != "compute_landscape":
+            m_ = cls.lookup(n.func.attr, project)
+            self_calls.append(m_)
+            mv = fn_view(project, m_)
+            sorts += [x for x in ast.walk(mv) if isinstance(x, ast.Call) and
+                      (project.resolve(m_.module, x.func, local_names(mv)) == "builtins.sorted" or
+                       (isinstance(x.func, ast.Attribute) and x.func.attr == "sort"))]
     key_ok = False
     for c in sorts:
         key = [k.value for k in c.keywords if k.arg == "key"]
         rev = [k.value for k in c.keywords if k.arg == "reverse"]
         reverse = bool(rev and isinstance(rev[0], ast.Constant) and rev[0].value is True)
+        if key and isinstance(key[0], ast.Name):
+            # a named key function of the package: read its returned expression like a lambda's body
+            kt = project.resolve(fi.module, key[0], set())
+            kf = project.functions.get(kt) if kt else None
+            rets = [r for r in ast.walk(kf.node) if isinstance(r, ast.Return)] if kf is not None else []
+            if kf is not None and len(rets) == 1 and len(kf.params) == 1 and len(kf.node.body) <= 2:
+                lam_ = ast.Lambda(args=kf.node.args, body=rets[0].value)
+                ast.copy_location(lam_, key[0])
+                key = [lam_]
         if not key or not isinstance(key[0], ast.Lambda):
             continue
         lam = key[0]
@@ -147,6 +167,12 @@ def run(project: Project, rep, tier: str):
         other = [n for n in ast.walk(f) if isinstance(n, ast.Call) and (project.resolve(fi.module, n.func, locs) or "").rsplit(".", 1)[-1]
                  in ("lexsort", "argsort", "sort", "sorted", "heapify", "heappush", "insort", "bisect_left", "bisect_right", "bisect")]
         callees = [n for n in ast.walk(f) if isinstance(n, ast.Call) and (project.resolve(fi.module, n.func, locs) or "") in project.classes]
+        # any sort whose key was not read, and any call into the package that was not looked into, may be the ordering step
+        other += [c for c in sorts]
+        callees += [n for n in ast.walk(f) if isinstance(n, ast.Call) and (
+            (project.resolve(fi.module, n.func, locs) or "") in project.functions
+            or (isinstance(n.func, ast.Attribute) and isinstance(n.func.value, ast.Name) and n.func.value.id == "self"
+                and n.func.attr != "compute_landscape"))]
         if other or callees:
             rep.unmodelled("LX-SORT", fi, (other or callees)[0], "the bars are ordered by a construct this rule does not read "
                            f"(`{ast.unparse((other or callees)[0])[:60]}`); the order is decided by LX-SWEEP when it can follow it")
